@@ -46,3 +46,97 @@ def prefix_claims(*prefixes):
     def claims(rule):
         return any(rule == p or rule.startswith(p) for p in prefixes)
     return claims
+
+
+# ---------------------------------------------------------------------------
+# SYS families
+# ---------------------------------------------------------------------------
+COMPONENTS_SYS = {
+    "real": ["eudoxia.simulator.run_simulator", "Scheduler + shipped policies (naive, priority, priority-pool, "
+             "overbook) and the starter template written by init_command", "Executor/ResourcePool/Container",
+             "PipelineRuntimeStatus", "statistics code"],
+    "stub": ["workload source (scenario pipelines replayed through the public Workload interface) unless the "
+             "family says it wraps the real WorkloadGenerator"],
+}
+
+RULE_SYS = ("SYS driver: seeded scenarios (valid configuration x well-formed workload with OOM-prone memory profiles, "
+            "query bursts, tight pools) run through the real run_simulator with recording seams; non-trivial = at "
+            "least one failure result or suspension occurred; distinct = distinct per-tick sequences of "
+            "(assignments, suspensions, successes, failures)")
+
+
+def sys_oracles(scn):
+    from .. import sysoracles as so
+    algo = scn["cfg"]["algo"]
+    out = []
+    for name in scn.get("oracles", []):
+        if name == "stats":
+            out.append(so.StatsOracle())
+        elif name == "policy":
+            if algo in ("priority", "priority-pool"):
+                out.append(so.PriorityOracle(algo))
+            if algo == "priority-pool":
+                out.append(so.PoolOracle())
+            if algo == "naive":
+                out.append(so.NaiveOracle(scn["cfg"]["multi"]))
+            if algo == "template":
+                out.append(so.NaiveOracle(scn["cfg"]["multi"], template=True))
+            if algo == "overbook":
+                out.append(so.OverbookOracle())
+    return out
+
+
+def sys_execute(scn, rng):
+    from .. import sysdrv
+    out, rec, stats = sysdrv.run(scn, oracles=sys_oracles(scn), keep_rounds=False)
+    return out
+
+
+def sys_sample(scn, out):
+    return {"cfg": scn["cfg"], "pipelines": len(scn.get("pipes", [])),
+            "first_pipeline": (scn.get("pipes") or [None])[0], "oracles": scn.get("oracles")}
+
+
+def dispatch_execute(scn, rng):
+    k = scn.get("kind")
+    if k == "sys":
+        return sys_execute(scn, rng)
+    if k == "walk":
+        from .. import walks
+        return walks.run_walk(scn)
+    if k == "dag":
+        from .. import walks
+        return walks.run_dag(scn)
+    return ex_execute(scn, rng)
+
+
+def dispatch_prepare(scn, viol):
+    k = scn.get("kind")
+    if k == "walk":
+        t = viol.get("tick")
+        return dict(scn, requests=scn["requests"][: t + 1]) if t is not None else scn
+    if k != "ex":
+        return scn
+    return ex_prepare_replay(scn, viol)
+
+
+def dispatch_sample(scn, out):
+    k = scn.get("kind")
+    if k == "sys":
+        return sys_sample(scn, out)
+    if k == "walk":
+        return {"kind": "walk", "par": scn["par"], "requests_head": scn["requests"][:12], "n_requests": len(scn["requests"])}
+    if k != "ex":
+        return scn
+    return ex_sample(scn, out)
+
+
+def walk_candidates(scn):
+    import copy
+    if scn.get("kind") != "walk":
+        return
+    n = len(scn["requests"])
+    for i in range(n - 2, -1, -1):
+        s = copy.deepcopy(scn)
+        del s["requests"][i]
+        yield s
